@@ -78,7 +78,7 @@ type Program struct {
 
 	LoadStats LoadStats
 	Canon     canon.Report
-	aliases   map[string]string // baseline "relpkg.Name" -> current "relpkg.Name" (renamed functions)
+	aliases   map[string][]string // baseline "relpkg.Name" -> current candidates (renamed / converted functions)
 }
 
 type LoadStats struct {
@@ -130,10 +130,14 @@ func Load(repo string, tier string, overlay Overlay) (*Program, error) {
 	if len(pkgs) == 0 {
 		return nil, fmt.Errorf("no packages loaded from %s", repo)
 	}
-	p := &Program{Repo: repo, Tier: tier, AllPkgs: map[string]*packages.Package{}, Canon: canonRep, aliases: map[string]string{}}
+	p := &Program{Repo: repo, Tier: tier, AllPkgs: map[string]*packages.Package{}, Canon: canonRep, aliases: map[string][]string{}}
 	for from, to := range canonRep.Aliases {
-		p.aliases[keyToName(from, true)] = keyToName(to, true)
-		p.aliases[keyToName(from, false)] = keyToName(to, false)
+		for _, fp := range []bool{true, false} {
+			for _, tp := range []bool{true, false} {
+				f, t := keyToName(from, fp), keyToName(to, tp)
+				p.aliases[f] = append(p.aliases[f], t)
+			}
+		}
 	}
 	var errs []string
 	packages.Visit(pkgs, nil, func(pk *packages.Package) {
@@ -334,12 +338,16 @@ func (p *Program) InstrPos(in ssa.Instruction) string {
 // ("internal/pkg/reactor", "(*reactor).run").
 func (p *Program) Func(relpkg, name string) *ssa.Function {
 	want := relpkg + "." + name
-	if to, ok := p.aliases[want]; ok {
-		want = to
-	}
 	for _, fn := range p.ModFuncs {
 		if FuncName(fn) == want {
 			return fn
+		}
+	}
+	for _, to := range p.aliases[want] {
+		for _, fn := range p.ModFuncs {
+			if FuncName(fn) == to {
+				return fn
+			}
 		}
 	}
 	return nil
@@ -406,8 +414,17 @@ func keyToName(k string, ptr bool) string {
 // CurrentName maps a function name of the reference tree ("relpkg.Name" / "relpkg.(*T).Name") to the name it has on
 // the analysed tree when the canonicaliser recognised a pure rename; otherwise the name itself.
 func (p *Program) CurrentName(name string) string {
-	if to, ok := p.aliases[name]; ok {
-		return to
+	for _, fn := range p.ModFuncs {
+		if FuncName(fn) == name {
+			return name
+		}
+	}
+	for _, to := range p.aliases[name] {
+		for _, fn := range p.ModFuncs {
+			if FuncName(fn) == to {
+				return to
+			}
+		}
 	}
 	return name
 }
